@@ -252,6 +252,10 @@ def build(spec, seed=0):
         return scalar_of(spec["c"]) * build(spec["kids"][0], seed)
     if op == "RScale":
         return build(spec["kids"][0], seed) * scalar_of(spec["c"])
+    if op == "AddN":
+        return L.Add([build(k, seed) for k in spec["kids"]])
+    if op == "ComposeN":
+        return L.Compose([build(k, seed) for k in spec["kids"]])
     if op == "Hstack":
         return L.Hstack([build(k, seed) for k in spec["kids"]], axis=g("axis"))
     if op == "Vstack":
@@ -512,6 +516,50 @@ def leaf_specs(tier, classes=None):
                         continue
                     for op in ("Wavelet", "InverseWavelet"):
                         add(dict(op=op, shape=s, axes=None if ax is None else list(ax), wave=wv, level=lv))
+    # ---- a band of larger 1-D (and a few 2-D) sizes: defects that only appear above a small size threshold
+    for n in (9, 12, 16):
+        for cen in (True, False):
+            add(dict(op="FFT", shape=[n], axes=None, center=cen))
+            add(dict(op="IFFT", shape=[n], axes=[-1], center=cen))
+        for sh in (4, -7, n + 1):
+            add(dict(op="Circshift", shape=[n], shift=[sh], axes=None))
+        add(dict(op="Flip", shape=[n], axes=None))
+        for m in (n - 5, n + 5, n + 7):
+            add(dict(op="Resize", oshape=[m], ishape=[n]))
+            add(dict(op="Resize", oshape=[n], ishape=[m]))
+        for f in (5, 6):
+            for sft in (None, [0], [4]):
+                add(dict(op="Downsample", shape=[n], factors=[f], shift=sft))
+                add(dict(op="Upsample", shape=[n], factors=[f], shift=sft))
+        for B in (4, 5):
+            for St in (1, 3, 4, 5, 6):
+                for op in ("ArrayToBlocks", "BlocksToArray"):
+                    add(dict(op=op, shape=[n], B=[B], S=[St]))
+        for w in (5, 6):
+            for op in ("Interpolate", "Gridding"):
+                add(dict(op=op, grid=[n], batch=[], coord="random", npts=7, kernel="kaiser_bessel", width=w, param=6.0))
+        add(dict(op="NUFFT", grid=[n], batch=[], coord="random", npts=9, oversamp=1.25, width=4))
+        add(dict(op="NUFFT", grid=[n], batch=[], coord="random", npts=9, oversamp=1.25, width=4, toeplitz=True))
+        add(dict(op="NUFFTAdjoint", grid=[n], batch=[], coord="random", npts=9, oversamp=1.5, width=3))
+        for wv, lv in (("db4", None), ("db4", 2), ("haar", 3), ("sym4", 1)):
+            add(dict(op="Wavelet", shape=[n], axes=None, wave=wv, level=lv))
+            add(dict(op="InverseWavelet", shape=[n], axes=[0], wave=wv, level=lv))
+        add(dict(op="FiniteDifference", shape=[n], axes=None))
+        add(dict(op="ConvolveData", dshape=[n], fshape=[5], mode="valid", strides=[3], mc=False))
+        add(dict(op="ConvolveFilter", dshape=[n], fshape=[6], mode="full", strides=[4], mc=False))
+    for s2 in ([9, 4], [3, 12], [5, 5, 2]):
+        add(dict(op="FFT", shape=s2, axes=[0, -1], center=True))
+        add(dict(op="Transpose", ishape=s2, axes=None))
+        add(dict(op="Sum", shape=s2, axes=[0]))
+        add(dict(op="Tile", shape=s2, axes=[-1]))
+        add(dict(op="Multiply", ishape=s2, mult={"mshape": s2[-1:]}, conj=False))
+        if len(s2) == 2:
+            add(dict(op="ArrayToBlocks", shape=s2, B=[3, 2], S=[2, 3]))
+            add(dict(op="BlocksToArray", shape=s2, B=[3, 2], S=[2, 3]))
+    for nc in (5, 6):
+        for bs in [None] + list(range(1, nc + 1)):
+            add(dict(op="Sense", img=[2, 3], nc=nc, batch_size=bs, coord=None, npts=7, weights=True))
+            add(dict(op="Sense", img=[2, 3], nc=nc, batch_size=bs, coord="random", npts=7, weights=False))
     # Conj of a handful of operators
     for k in (dict(op="FFT", shape=[2, 3], axes=[-1], center=True),
               dict(op="Multiply", ishape=[2, 3], mult={"mshape": [2, 3]}, conj=False),
